@@ -150,6 +150,12 @@ class Model:
     def _recv_one(self, lt):
         """Process one complete, well-formed message (light view).  Returns 'ok' | 'error' |
         'either'.  Mutates on 'ok'/'either' as if accepted."""
+        v = self._recv_one_strict(lt)
+        if v == "ok" and lt.get("dubious"):
+            return "either"  # e.g. a known control with a missing value: rejecting and tolerating are both defensible
+        return v
+
+    def _recv_one_strict(self, lt):
         kind = lt["kind"]
         mid = lt["id"]
         if kind == "UnbindRequest":
